@@ -10,7 +10,7 @@
 
     PARTIAL: the executor and the OS are an oracle.  [w : world] = (log
     collection on/off, the answer of `await future`: the worker's value, the
-    worker's exception, or BrokenProcessPool; and two facts about the worker's
+    worker's exception, or BrokenProcessPool; and one fact about the worker's
     log traffic, see Proc/Model.v).  All statements quantify over
     EVERY world; [consistent sc a] says which answers a worker behaviour
     [sc = (behaviour, optional (signal, instant))] allows -- that relation and
@@ -36,24 +36,19 @@ Proof. exact handle_returned. Qed.
 Theorem C17_never_raises : forall w e, await_handle w <> Raises e.
 Proof. exact never_raises. Qed.
 
-(** "ALWAYS yields its outcome" is REFUTED by the faithful model (and by the real code, see
-    the report of harness/props/c17.py): with log collection on and a worker that logs,
-    (1) a worker that ends normally with more unflushed log records than the pipe holds never
-        exits, because `with ProcessPoolExecutor` blocks the event loop in shutdown(wait=True)
-        and the log listener (which needs the loop) stops reading: the handle never completes;
-    (2) a worker that dies (os._exit / SIGTERM / SIGKILL) while its feeder thread writes a log
-        record leaves the queue's write lock taken: the listener's sentinel is never written and
-        `await task` never completes. *)
-Theorem C17_yields_refuted_backlog :
-  exists w, ans w = AValue 7 /\ await_handle w = Hangs HShutdown.
-Proof. exact yields_refuted_backlog. Qed.
-
+(** "ALWAYS yields its outcome" is REFUTED by the faithful model (and by the real code: known
+    finding `hang:log-listener-never-ends`): with log collection on, a worker that dies
+    (os._exit / SIGTERM / SIGKILL) while its feeder thread writes a log record leaves the
+    queue's write lock taken: the listener's sentinel is never written and `await task` never
+    completes.
+    (The other refutation of the first build, a worker ending normally with a backlog of log
+    records, is gone with the repair 5c07918: the executor shutdown no longer blocks the loop.) *)
 Theorem C17_yields_refuted_killed_while_logging :
   exists w, ans w = ARaise EBrokenPool /\ await_handle w = Hangs HListener.
 Proof. exact yields_refuted_killed_while_logging. Qed.
 
-(** exactly those two situations: the added hypothesis of the partial theorems below is
-    [stuck w = None], i.e. no log collection, or neither of the two logging facts *)
+(** exactly that situation: the added hypothesis of the partial theorems below is
+    [stuck w = None], i.e. no log collection, or the worker did not die inside a log write *)
 Theorem C17_hang_iff : forall w h, await_handle w = Hangs h <-> stuck w = Some h.
 Proof. exact hang_iff. Qed.
 
@@ -63,6 +58,11 @@ Proof. exact yields_partial. Qed.
 Theorem C17_yields_without_logging : forall w,
   collect_logging w = false -> exists x, await_handle w = Yields x.
 Proof. exact yields_without_logging. Qed.
+
+(** however much the worker logged: if it was not killed inside a log write the handle yields *)
+Theorem C17_yields_when_not_killed_logging : forall w,
+  died_in_log_write w = false -> exists x, await_handle w = Yields x.
+Proof. exact yields_when_not_killed_logging. Qed.
 
 (** value xor exception xor neither, matching the behaviour:
     return -> that value; raise -> that exception; unpicklable return value -> a
@@ -106,8 +106,12 @@ Theorem C17_cleanup_prefix : forall w,
     = run_trace w ++ rest.
 Proof. exact cleanup_prefix. Qed.
 
-(** ... and, outside the two stuck situations, on every path: the executor is shut down
-    (wait=True: the process is joined, exit code set) after the future was awaited, then --
+(** ... the worker process is joined (exit code set) in EVERY world ... *)
+Theorem C17_process_always_joined : forall w, joined (run_trace w) = true.
+Proof. exact process_always_joined. Qed.
+
+(** ... and, outside the stuck situation, on every path: the executor is shut down (wait=True, in
+    a helper thread that is awaited: the process is joined, exit code set) after the future was awaited, then --
     with log collection -- the listener is sent its sentinel and awaited; nothing is left open *)
 Theorem C17_cleanup_partial : forall w, stuck w = None ->
   run_trace w =
@@ -118,11 +122,9 @@ Theorem C17_cleanup_partial : forall w, stuck w = None ->
   joined (run_trace w) = true.
 Proof. exact cleanup_partial. Qed.
 
-(** in the stuck situations: (1) process never joined, listener and executor left open;
-    (2) process joined but the listener task left pending *)
+(** in the stuck situation the process is joined but the listener task is left pending *)
 Theorem C17_cleanup_refuted :
-  (exists w, joined (run_trace w) = false /\ helpers_left (run_trace w) = 2%nat) /\
-  (exists w, joined (run_trace w) = true /\ helpers_left (run_trace w) = 1%nat).
+  exists w, joined (run_trace w) = true /\ helpers_left (run_trace w) = 1%nat.
 Proof. exact cleanup_refuted. Qed.
 
 (** creation and exit times are present and ordered *)
@@ -139,29 +141,31 @@ Proof. exact signals_before_exit. Qed.
 Example C17_example_nonvacuous :
   let sc := (Ret 7, Some (STerm, Racing)) in
   consistent sc (AValue 7) /\ consistent sc (ARaise EBrokenPool) /\
-  stuck (mkWorld true (AValue 7) false false) = None /\
-  await_handle (mkWorld true (AValue 7) false false) = Yields (mkExited (Some 7) None 6 10) /\
-  await_handle (mkWorld true (ARaise EBrokenPool) false false) = Yields (mkExited None None 6 10) /\
-  await_handle (mkWorld false (ARaise (EWorker 3)) true true) = Yields (mkExited None (Some (EWorker 3)) 4 6) /\
-  run_trace (mkWorld true (ARaise EKeyboardInt) false false) =
+  stuck (mkWorld true (AValue 7) false) = None /\
+  await_handle (mkWorld true (AValue 7) false) = Yields (mkExited (Some 7) None 6 10) /\
+  await_handle (mkWorld true (ARaise EBrokenPool) false) = Yields (mkExited None None 6 10) /\
+  await_handle (mkWorld false (ARaise (EWorker 3)) true) = Yields (mkExited None (Some (EWorker 3)) 4 6) /\
+  run_trace (mkWorld true (ARaise EKeyboardInt) false) =
     [VListenerStarted; VInitializerWrapped; VExecutorCreated; VSubmitted; VProcessKnown; VEventSet;
      VFutureAwaited; VExecutorShutdown; VListenerSentinel; VListenerAwaited] /\
-  run_trace (mkWorld true (ARaise EKeyboardInt) true false) =
-    [VListenerStarted; VInitializerWrapped; VExecutorCreated; VSubmitted; VProcessKnown; VEventSet; VFutureAwaited] /\
+  run_trace (mkWorld true (ARaise EBrokenPool) true) =
+    [VListenerStarted; VInitializerWrapped; VExecutorCreated; VSubmitted; VProcessKnown; VEventSet;
+     VFutureAwaited; VExecutorShutdown; VListenerSentinel] /\
   call MInterrupt PZombie = MDelivered SInt.
 Proof. vm_compute. repeat split; auto. Qed.
 
 Print Assumptions C17_skeleton_tie.
 Print Assumptions C17_handle_returned.
 Print Assumptions C17_never_raises.
-Print Assumptions C17_yields_refuted_backlog.
 Print Assumptions C17_yields_refuted_killed_while_logging.
 Print Assumptions C17_hang_iff.
 Print Assumptions C17_yields_partial.
 Print Assumptions C17_yields_without_logging.
+Print Assumptions C17_yields_when_not_killed_logging.
 Print Assumptions C17_outcome_shape.
 Print Assumptions C17_value_xor_exception.
 Print Assumptions C17_cleanup_prefix.
+Print Assumptions C17_process_always_joined.
 Print Assumptions C17_cleanup_partial.
 Print Assumptions C17_cleanup_refuted.
 Print Assumptions C17_times_ordered.
